@@ -163,9 +163,25 @@ def stobads_specs(ctx):
     return specs
 
 
+def he_repeat_specs(ctx):
+    """One-dimensional runs under specified noise whose reported SD differs from call to call: repeats of a logged point are merged into its
+    record, and the merged value (which becomes the recorded yval) must stay within the range of what was observed there."""
+    from .. import gen
+    rng = ctx.sub_rng("c19he")
+    specs = []
+    for _ in range(6 if ctx.quick else 40):
+        sp = gen.make_spec(rng, D=1, mode="he", geom=rng.choice(["box", "tight"]), cons=None, opt_loc="inside", target=rng.choice(["quad", "abs"]))
+        sp["sd_jitter"] = True
+        sp["noise"] = rng.choice([0.3, 1.0])
+        sp["options"] = {"n_search": 32, "max_fun_evals": rng.choice([90, 130]), "noise_final_samples": rng.choice([0, 2])}
+        specs.append(sp)
+    return specs
+
+
 def run(ctx):
     rep = Report()
     cstats = container_level(ctx, rep)
+    runlevel.with_extra(ctx, "c19he", lambda: he_repeat_specs(ctx))
     runlevel.with_extra(ctx, "c19sto", lambda: stobads_specs(ctx))
     runlevel.with_extra(ctx, "c19seed", lambda: edge_seed_specs(ctx))
     stats, samples = runlevel.noisy_replay(ctx, rep, ctx.pid)
